@@ -13,7 +13,7 @@ HERE = os.path.dirname(os.path.abspath(__file__))
 ROOT = os.path.dirname(HERE)
 REPO = os.environ.get("VERIF_REPO", "/repo")
 sys.path[:0] = [REPO, HERE, ROOT, os.path.join(ROOT, "spec")]
-sys.setrecursionlimit(4000)
+sys.setrecursionlimit(20000)
 
 
 def main():
